@@ -112,10 +112,10 @@ pub fn check(em: &Emitted, all_subranges: bool) -> (Vec<(String, String)>, u64) 
     (out, checked)
 }
 
-pub fn eval_program(p: &Program, all_subranges: bool) -> (Vec<Failure>, u64) {
-    let em = emit(p);
+pub fn eval_program(p: &Program, all_subranges: bool, trivia: bool) -> (Vec<Failure>, u64) {
+    let em = crate::pm::emit_with(p, trivia);
     let witness: String = em.files.iter().map(|f| format!("// {}\n{}", f.name, f.text)).collect::<Vec<_>>().join("\n");
-    let case = json!({ "program": p, "witness": witness });
+    let case = json!({ "program": p, "trivia": trivia, "witness": witness });
     match guard(|| check(&em, all_subranges)) {
         Ok((problems, n)) => (problems.into_iter().map(|(c, d)| Failure::new(&c, witness.clone(), d, case.clone())).collect(), n),
         Err(pn) => (vec![Failure::new("crash", witness, format!("{} at {}", pn.message, pn.location), case)], 0),
@@ -130,7 +130,7 @@ impl Engine for C19 {
     fn rule(&self, tier: Tier) -> String {
         format!(
             "hover programs: doc comments of 0..2 lines, attached or detached by a blank line, and four shapes with a banner comment above a blank line above the documentation (only the lines below the blank line document), on class / field / def / multiclass declarations x class references with 0..3 positional arguments followed by 0..1 named ones in parent lists, class values, nested class values and defset members x field overrides x 2 layouts; \
-             plus the declaration-structure programs (wrapper depth <= {}) and the well-scoped scope programs (depth <= {}). Hover is requested at every offset of every resolved identifier; inlay hints for the whole file and for {} token-boundary sub-range. \
+             plus the declaration-structure programs (wrapper depth <= {}) and the well-scoped scope programs (depth <= {}). Every program is printed twice: plainly and with a comment after every identifier. Hover is requested at every offset of every resolved identifier; inlay hints for the whole file and for {} token-boundary sub-range. \
              non-trivial = every program; distinct by construction.",
             tier.pick(1, 3),
             tier.pick(1, 3),
@@ -156,14 +156,16 @@ impl Engine for C19 {
                 if !ctx.mine() {
                     return true;
                 }
-                ctx.trace(|| json!({ "program": p }));
-                let (fails, n) = eval_program(p, all);
-                ctx.case(true);
-                ctx.add("queries_checked", n);
-                ctx.sample(|| json!(emit(p).files[0].text.chars().take(300).collect::<String>()));
-                for f in fails {
-                    ctx.fail(f);
+                for trivia in [false, true] {
+                    ctx.trace(|| json!({ "program": p, "trivia": trivia }));
+                    let (fails, n) = eval_program(p, all, trivia);
+                    ctx.case(true);
+                    ctx.add("queries_checked", n);
+                    for f in fails {
+                        ctx.fail(f);
+                    }
                 }
+                ctx.sample(|| json!(emit(p).files[0].text.chars().take(300).collect::<String>()));
                 !ctx.expired()
             };
             hover_programs(|p| run(ctx, p, all));
@@ -185,15 +187,17 @@ impl Engine for C19 {
 
     fn eval_case(&self, case: &Value) -> Vec<Failure> {
         let Some(p) = program_of(case) else { return vec![] };
-        guard_on_stack(STACK, || eval_program(&p, true).0).unwrap_or_default()
+        let trivia = case["trivia"].as_bool().unwrap_or(false);
+        guard_on_stack(STACK, || eval_program(&p, true, trivia).0).unwrap_or_default()
     }
 
     fn shrink(&self, case: &Value, _clause: &str) -> Vec<Value> {
         let Some(p) = program_of(case) else { return vec![] };
+        let trivia = case["trivia"].as_bool().unwrap_or(false);
         shrink_program(&p)
             .into_iter()
             .filter(|q| emit(q).occs.iter().all(|o| o.target.is_some() || !o.judged))
-            .map(|q| json!({ "program": q }))
+            .map(|q| json!({ "program": q, "trivia": trivia }))
             .collect()
     }
 }
